@@ -8,6 +8,7 @@ from ..importsim import Sim, MODULE_DUNDERS
 from ..resolve import fold_version, BUILTINS, statement_bindings, top_level_statements
 from ..loader import where
 from ..selftest.runner import M, TW
+from . import common as K
 
 PROPERTY = "C20"
 EXPLANATION = (
